@@ -77,10 +77,14 @@ func c04(r *core.Run) {
 	r.Rule("R3", "pre-dispatch: every return of request processing has replied or follows the dispatcher call; every return of the message handler is a documented refusal (no reply subject / malformed subject) or follows the enqueue of processing", 4)
 	r.Rule("R4", "MayReply => MustReply for every method taking the request: if it can reach the funnel, every normal return has state Yes", 30)
 	r.Rule("R6", "pre-dispatch code cannot panic: no explicit panic is reachable (flag-sensitively) in request processing or the library functions it calls before the dispatcher's recover is installed", 2)
+	r.Rule("R7", "requests are not parked on an orphaned work item (shared with C01.H1): the group registry is re-created before the workers of each run and the service is declared stopped only after all workers exited; otherwise, after a Shutdown with queued work and a restart, every request for that resource is appended to a work item no worker will run and is never answered", 2)
 	r.Rule("R5", "every handler call (dynamic call passing a request object) lies in a function that defers a recover closure in its entry block", 3)
 
 	models := c04Models(r, "R0")
 	root := p.FuncsOfPkg("")
+	if sa, se := queueEngine(r, "R7"); se != nil {
+		c01Restart(r, "R7", sa, root)
+	}
 
 	// ---- R0 funnel ------------------------------------------------------
 	funnels := map[*ssa.Function]bool{}
